@@ -2,6 +2,7 @@
 full validation with the real scrypt.  Unpatched table, horizon and hash functions (the horizon is lowered only
 for the last part, which re-validates the recorded blocks completely)."""
 import hashlib
+import struct
 import os
 
 from .. import enc, refmodel, seams, world
@@ -131,6 +132,40 @@ def run(ctx):
         blocks.append(b)
     if gen.hash().hex() != T[0]:
         V('recorded-id', "genesis id is not checkpoint 0", {'k': 'rec'})
+    # the chain sample behind every real block's evidence is read cyclically out of earlier real blocks: at EVERY offset of
+    # every recorded block (the recorded evidence only exercises 40 of them), for slice lengths 1, 4 (the real one), 32 and
+    # lengths around the block's own, the slice equals the cyclic read
+    from skepticoin import pow as powmod
+    nsl = 0
+    for (h, hexid, raw) in recorded:
+        L_ = len(raw)
+        for off in range(L_):
+            for base in (off, off + L_, off + 7 * L_):
+                if base >= 2**32:
+                    continue
+                hsh = b'\x5a' * 8 + struct.pack(">I", base) + b'\xa5' * 20
+                for ln in (1, 4, 32) + ((L_ - 1, L_, L_ + 3, 2 * L_ + 1) if off % 16 == L_ % 16 else ()):
+                    nsl += 1
+                    exp = bytes(raw[(off + i) % L_] for i in range(ln))
+                    try:
+                        got = powmod.select_block_slice(hsh, raw, ln)
+                    except Exception as e:
+                        got = repr(e)
+                    if got != exp:
+                        V('chain-sample-slice', "select_block_slice at offset %d of recorded block %d (%d bytes), length %d: %s, a cyclic "
+                          "read gives %s" % (off, h, L_, ln, got.hex() if isinstance(got, bytes) else got, exp.hex()), {'k': 'slice'})
+                        break
+    n += nsl
+    for hv in (1, 2, 5, 6, 499, 500, 163000, 163001, 2**32):
+        for b8 in (0, 1, hv - 1, hv, hv + 1, 2**64 - 1):
+            n += 1
+            hsh = struct.pack(">Q", b8 % 2**64) + b'\x33' * 24
+            try:
+                got = powmod.select_block_height(hsh, hv)
+            except Exception as e:
+                got = repr(e)
+            if got != (b8 % 2**64) % hv:
+                V('chain-sample-height', "select_block_height(%d, %d) = %s" % (b8, hv, got), {'k': 'slice'})
     # full validation with the REAL scrypt, horizon lowered
     seams.lower_horizon()
     seams.real_pow()
